@@ -175,7 +175,7 @@ def run(prop, replay_file=None):
                     rep.machinery.append("the specification itself violates %s on the grid (spec error)" % r.violated)
             except tlc.TLCError as e:
                 rep.machinery.append("TLC failed on the grid: %s" % str(e)[-1500:])
-            cases = gen_cases(prop, 3000 if t == "quick" else 40000, sd)
+            cases = gen_cases(prop, 3000 if t == "quick" else 150000, sd)
         def evaluate(chunk):
             with open(os.path.join(w, "SizerCases.tla"), "w") as fh:
                 fh.write(cases_module(chunk))
